@@ -1122,9 +1122,13 @@ impl DocumentMut for XmlDocument {
     }
 
     fn create_entity_reference(&self, name: &str) -> error::Result<XmlEntityReference> {
+        // The whole string is one reference to a general entity of that name (`a;b`
+        // leaves a rest behind, `#65` is a character reference).
         let ref_name = format!("&{};", name);
-        xml_parser::reference(ref_name.as_str())
-            .map_err(|_| error::DomException::InvalidCharacterErr)?;
+        match xml_parser::reference(ref_name.as_str()) {
+            Ok(("", xml_parser::model::Reference::Entity(v))) if v == name => {}
+            _ => return Err(error::DomException::InvalidCharacterErr.into()),
+        }
 
         let entity = self.document.borrow().context().entity(name)?;
         let entity = xml_info::XmlUnexpandedEntityReference::node(
